@@ -203,6 +203,10 @@ fn stateless_case(kind: Kind, wrapper: usize, in_bufs: &[usize], n_out: usize) -
 
 /// Delay node: per-channel ring lengths, mismatched channel counts, 4 calls.
 fn delay_case(lens: &[usize], n_in: usize, n_out: usize, wrapper: usize) -> Option<Bad> {
+    delay_case_calls(lens, n_in, n_out, wrapper, 4)
+}
+
+fn delay_case_calls(lens: &[usize], n_in: usize, n_out: usize, wrapper: usize, calls: usize) -> Option<Bad> {
     let tag = format!("Delay rings {lens:?} input buffers {n_in} output buffers {n_out} wrapper {}", ["plain", "BoxedNode", "Box<dyn FnMut>", "GraphNode"][wrapper]);
     let rings = || -> Vec<Fixed<Vec<f32>>> { lens.iter().enumerate().map(|(c, &l)| Fixed::from((0..l).map(|i| -((c * 1000 + i + 1) as f32) / 256.0).collect::<Vec<f32>>())).collect() };
     let mut g: G = Graph::with_capacity(4, 4);
@@ -227,7 +231,7 @@ fn delay_case(lens: &[usize], n_in: usize, n_out: usize, wrapper: usize) -> Opti
     g.add_edge(s, t, ());
     let mut p = Processor::<G>::with_capacity(4);
     let active = lens.len().min(n_in).min(n_out);
-    for call in 0..4 {
+    for call in 0..calls {
         if let Err(e) = catch(|| p.process(&mut g, t)) {
             return Some(("node.panic".into(), format!("{tag}: call {call} panicked: {e}")));
         }
@@ -258,6 +262,10 @@ fn delay_case(lens: &[usize], n_in: usize, n_out: usize, wrapper: usize) -> Opti
 
 /// Signal node: Box<dyn Signal<Frame=[f32;2]>> over an instrumented source.
 fn signal_case(n_out: usize, wrapper: usize) -> Option<Bad> {
+    signal_case_calls(n_out, wrapper, 3)
+}
+
+fn signal_case_calls(n_out: usize, wrapper: usize, calls: usize) -> Option<Bad> {
     let tag = format!("signal node with {n_out} output buffers wrapper {}", ["Box<dyn Signal>", "BoxedNode(Box<dyn Signal>)"][wrapper]);
     let (gen, c) = Gen::new(|n| [n as f32, -(n as f32) - 0.5]);
     let sig: Box<dyn Signal<Frame = [f32; 2]>> = Box::new(gen);
@@ -265,7 +273,7 @@ fn signal_case(n_out: usize, wrapper: usize) -> Option<Bad> {
     let mut g: G = Graph::with_capacity(2, 1);
     let t = g.add_node(NodeData::new(node, sentinel_bufs(n_out)));
     let mut p = Processor::<G>::with_capacity(2);
-    for call in 0..3 {
+    for call in 0..calls {
         if let Err(e) = catch(|| p.process(&mut g, t)) {
             return Some(("node.panic".into(), format!("{tag}: call {call} panicked: {e}")));
         }
@@ -314,7 +322,7 @@ fn main() {
         guard::enter(&v.to_string());
         ctx.finish_replay(catch(|| replay(&v)).unwrap_or_else(|p| Some(format!("panic: {p}"))));
     }
-    ctx.rule("Sum / SumBuffers: input count 0..=3 x buffers per input 0..=3 (every combination) x output buffers 0..=3 x 10 wrapper types (plain, BoxedNode, BoxedNodeSend, Box<Box<T>>, &mut T, fn pointer, Box<dyn Fn>, Box<dyn FnMut>, nested GraphNode, nested GraphNode whose inner input/output nodes have different buffer counts) x 3 consecutive calls; Pass: 0 or 1 input likewise; Delay: per-channel ring lengths over {1,2,63,64,65,130}^(1..=2 channels) x input buffers 0..=3 x output buffers 0..=3 x 4 wrappers x 4 calls with coded initial ring contents; signal node: Box<dyn Signal<Frame=[f32;2]>> over an instrumented source, output buffers 0..=3, 3 calls, 64 pulls per call; sources write position-coded dyadic values (sums exact in f32), outputs start as a sentinel; oracle = per-node reference function; distinct by configuration");
+    ctx.rule("Sum / SumBuffers: input count 0..=3 x buffers per input 0..=3 (every combination) x output buffers 0..=3 x 10 wrapper types (plain, BoxedNode, BoxedNodeSend, Box<Box<T>>, &mut T, fn pointer, Box<dyn Fn>, Box<dyn FnMut>, nested GraphNode, nested GraphNode whose inner input/output nodes have different buffer counts) x 3 consecutive calls; Pass: 0 or 1 input likewise; Delay: per-channel ring lengths over {1,2,63,64,65,130}^(1..=2 channels) x input buffers 0..=3 x output buffers 0..=3 x 4 wrappers x 4 calls with coded initial ring contents; signal node: Box<dyn Signal<Frame=[f32;2]>> over an instrumented source, output buffers 0..=3, 3 calls, 64 pulls per call; sources write position-coded dyadic values (sums exact in f32), outputs start as a sentinel; oracle = per-node reference function; soak probes: 300 consecutive calls of delay nodes (4 ring-length sets) and of the signal node; distinct by configuration");
     let mut evals = 0u64;
     for kind in [Kind::Sum, Kind::SumBuffers, Kind::Pass] {
         for n_in in 0..=(if kind == Kind::Pass { 1 } else { 3 }) {
@@ -391,6 +399,19 @@ fn main() {
             }
         }
     }
+    // soak probes: many consecutive process calls
+    for lens in [vec![1usize], vec![63, 130], vec![64, 65], vec![7, 200]] {
+        let case = json!({"sys":"delay_soak","lens":lens});
+        guard::enter(&case.to_string());
+        evals += 1;
+        if let Some((k, m)) = delay_case_calls(&lens, 2, 2, 0, 300) {
+            ctx.violation(&k, case, format!("300 consecutive calls: {m}"), None);
+        }
+    }
+    if let Some((k, m)) = signal_case_calls(2, 0, 300) {
+        ctx.violation(&k, json!({"sys":"signal_soak"}), format!("300 consecutive calls: {m}"), None);
+    }
+    evals += 1;
     ctx.add_evals(evals);
     ctx.set("exhaustive", json!(true));
     ctx.set("exhaustive_scope", json!("input counts <=3, buffers per node <=3, the listed ring lengths and wrappers; Pass with more than one input is not checked (the property speaks of a single input)"));
